@@ -101,6 +101,9 @@ def step (s : St) (line : String) : St × String :=
   | ["reset"] => (fresh, "ok")
   | ["chainname", n] => match unhex n with | some n => withX s (setChainName · n) | none => bad
   | ["relayer", b] => match unhex b with | some b => withX s (registerRelayer · b) | none => bad
+  | ["aggprop", _, _] => (s, "ok")            -- the registry effects follow as mpair / mdelpair lines (by construction)
+  | ["aggkill", _] => (s, "ok")
+  | ["aggconvert", _, _] => (s, "ok")
   | ["update", _, _, _, _] => (s, "ok")        -- the store effects follow as plant / unplant lines
   | ["plant", k, v, ok] =>
     match unhex k, unhex v with
@@ -224,6 +227,9 @@ def step (s : St) (line : String) : St × String :=
         let s := { s with pinfo := (b, (id, e, ds)) :: s.pinfo }
         if op = "pair" then ({ s with st := { s.st with a := aggSetPair (envOf s) s.st.a b } }, "ok")
         else if op = "delpair" then ({ s with st := { s.st with a := aggDelPair (envOf s) s.st.a b } }, "ok")
+        -- the registry operations behind the real proposal / message handlers, with their guards (`applyAgg`)
+        else if op = "mpair" then ({ s with st := { s.st with a := applyAgg (envOf s) s.st.a (.set b) } }, "ok")
+        else if op = "mdelpair" then ({ s with st := { s.st with a := applyAgg (envOf s) s.st.a (.del b) } }, "ok")
         else bad
       | none => bad
     | _, _, _, _ => bad
